@@ -70,3 +70,17 @@ Definition dec_single (ds : sched) : bool :=
   forallb (fun x : bool * Z * bool => let '(py, k, dec) := x in if dec then negb py && (k =? 1) else true) ds.
 Fixpoint sched_decisions (ds : sched) : Z :=
   match ds with [] => 0 | (_, _, dec) :: r => (if dec then 1 else 0) + sched_decisions r end.
+
+(* ------------------------------------------------------------------ series representation: the thinning sizes from the
+   arrival times (wave 6, audit4 B7).  levycopulaseries.py:124 draws ONE vector V = T * uniform(max(N1,N2)) and slices it
+   for BOTH point sets (:136-141): arrival i falls in product interval vk_i (0-based: the first k with V_i <= times[k+1]);
+   interval k, if it holds at least one arrival, thins a_k = #{i < N1 : vk_i = k} points of the first set and
+   b_k = #{i < N2 : vk_i = k} of the second -- for i < min(N1,N2) the two sets share the arrival time V_i
+   (observation D2 of audit4: a modelling defect of the series representation, outside C08's statement). *)
+Fixpoint count_in (k bound i : Z) (vk : list Z) : Z :=
+  match vk with
+  | [] => 0
+  | v :: r => (if (v =? k) && (i <? bound) then 1 else 0) + count_in k bound (i + 1) r
+  end.
+Definition series_slices (n1 n2 nb : Z) (vk : list Z) : list (Z * Z) :=
+  flat_map (fun k => if existsb (Z.eqb k) vk then [(count_in k n1 0 vk, count_in k n2 0 vk)] else []) (zrange nb).
